@@ -137,6 +137,8 @@ type Contracts struct {
 	ImmGlobals  map[string]*SpecFile // "pkg/path.Name" -> declaring file
 	InitEnsures map[string][]*Clause // package path -> clauses established by package initialisation
 	InitSpec    map[string]*SpecFile
+	PluginInv   map[string][]*Clause // package path -> invariants established by setup, assumed by handlers
+	WrittenBy   map[string][]string  // global key -> functions (short names) allowed to write it
 }
 
 func NewContracts() *Contracts {
@@ -146,6 +148,7 @@ func NewContracts() *Contracts {
 		GhostVars: map[string]*GhostVar{}, Lemmas: map[string]*Lemma{},
 		AxiomSpec: map[*Clause]*SpecFile{}, Immutable: map[string]bool{},
 		ImmGlobals: map[string]*SpecFile{}, InitEnsures: map[string][]*Clause{}, InitSpec: map[string]*SpecFile{},
+		PluginInv: map[string][]*Clause{}, WrittenBy: map[string][]string{},
 	}
 }
 
@@ -503,10 +506,27 @@ func (cs *Contracts) LoadFile(path, pkgPath string, fromRepo bool) error {
 		case "global":
 			// global Name immutable
 			parts := strings.Fields(rest)
+			if len(parts) >= 3 && parts[1] == "written-by" {
+				// global Name written-by f1,f2 : only these functions (and the package initialiser) store to it
+				var fs []string
+				for _, f := range strings.Split(strings.Join(parts[2:], ""), ",") {
+					fs = append(fs, strings.TrimSpace(f))
+				}
+				cs.WrittenBy[sf.expandQualified(parts[0])] = fs
+				cs.InitSpec[sf.PkgPath] = sf
+				continue
+			}
 			if len(parts) != 2 || parts[1] != "immutable" {
-				return errf("global Name immutable")
+				return errf("global Name immutable | global Name written-by f,g")
 			}
 			cs.ImmGlobals[sf.expandQualified(parts[0])] = sf
+		case "plugin-invariant":
+			cl, err := mkClause("invariant", rest, line)
+			if err != nil {
+				return err
+			}
+			cs.PluginInv[sf.PkgPath] = append(cs.PluginInv[sf.PkgPath], cl)
+			cs.InitSpec[sf.PkgPath] = sf
 		case "init-ensures":
 			pkg := sf.PkgPath
 			if !fromRepo {
